@@ -39,3 +39,83 @@ Theorem C09_checksum_is_chunking_independent : forall seed chunks,
   xdigest (fold_left xupdate chunks (xreset seed)) = xxh64 (concat chunks) seed.
 Proof. exact xxh64_streaming. Qed.
 Print Assumptions C09_checksum_is_chunking_independent.
+
+(* ---------------- round 2: the multi-frame decoder R (ZSTD_decompress semantics) ---------------- *)
+From ZV.Codec Require Import MultiFrameProofs C09Multi.
+
+(* if R accepts q ++ z and also accepts the prefix q, the cut falls on a frame boundary: q's content and items (zstd frame with its
+   content size / skippable frame with its payload size) are a prefix of those of the whole and the remainder z is an accepted stream *)
+Theorem C09_multi_prefix_stability : forall cfg d q z out items,
+  R cfg d (q ++ z) = Ok (out, items) ->
+  match R cfg d q with
+  | Ok (o2, i2) => exists o3 i3, out = o2 ++ o3 /\ map fitem_shape items = map fitem_shape (i2 ++ i3) /\ R cfg d z = Ok (o3, i3)
+  | Err _ _ => True
+  end.
+Proof. exact R_prefix. Qed.
+Print Assumptions C09_multi_prefix_stability.
+
+(* trailing bytes that are not a sequence of frames make single-call decoding fail, whatever number of complete frames precede them *)
+Theorem C09_trailing_bytes_rejected : forall cfg d s g o i c e,
+  R cfg d s = Ok (o, i) -> R cfg d g = Err c e -> exists c' e', R cfg d (s ++ g) = Err c' e'.
+Proof. exact R_trailing_rejected. Qed.
+Print Assumptions C09_trailing_bytes_rejected.
+
+(* several frames in one call, only the LAST one cut anywhere inside: refused *)
+Theorem C09_last_frame_truncated_rejected : forall cfg d s o i f out t,
+  R cfg d s = Ok (o, i) -> decode_frame cfg d f = Ok (out, t, []) ->
+  forall k, (0 < k < length f)%nat -> exists c e, R cfg d (s ++ firstn k f) = Err c e.
+Proof. exact R_last_frame_truncated. Qed.
+Print Assumptions C09_last_frame_truncated_rejected.
+
+(* the hypotheses are satisfiable: an empty single-segment frame (magic, descriptor 0x20, content size 0, one empty last raw block)
+   is accepted by decode_frame and by R, alone and twice in a row *)
+Example C09_multi_hypotheses_satisfiable :
+  let f := [40; 181; 47; 253; 32; 0; 1; 0; 0] in
+  (exists t, decode_frame default_config None f = Ok ([], t, [])) /\
+  (exists i, R default_config None (f ++ f) = Ok ([], i)).
+Proof. vm_compute. split; eexists; reflexivity. Qed.
+
+(* ---------------- round 2: the compression side, pledged source size (model of ZSTD_compressStream2's bookkeeping) ---------------- *)
+From ZV.Codec Require Import C09Pledge.
+
+(* the behaviour the property asks for (model with fixed = true), for EVERY history of calls h (n bytes offered, directive 0/1/2 each)
+   closed by an end call: with a pledge p the frame ends well iff exactly p bytes were supplied - unless the end directive came with
+   the very first call (zstd.h, ZSTD_CCtx_setPledgedSrcSize note 3: then the pledge is overridden by what is supplied) *)
+Theorem C09_pledge_enforced : forall stable p h n, no_end h ->
+  verdict true stable (Some p) (h ++ [(n, 2)]) = Some (match h with [] => true | _ => total h + n =? p end).
+Proof. exact verdict_fixed. Qed.
+Print Assumptions C09_pledge_enforced.
+
+(* the tree as it stands (fixed = false, mirrors zstd_compress.c): the pledge is ALSO dropped when every earlier call was deferred by the
+   stable-input path (ZSTD_c_stableInBuffer, ZSTD_e_continue, fewer than ZSTD_BLOCKSIZE_MAX bytes in total) - finding
+   C09-stablein-deferred-pledge-overridden; on every other history the two models agree *)
+Theorem C09_pledge_as_is : forall stable p h n, no_end h ->
+  verdict false stable (Some p) (h ++ [(n, 2)]) =
+  Some (match h with [] => true | _ => if alldefb stable 0 h then true else total h + n =? p end).
+Proof. exact verdict_as_is. Qed.
+Print Assumptions C09_pledge_as_is.
+
+Theorem C09_pledge_models_differ_only_when_deferred : forall stable p h n, no_end h -> alldefb stable 0 h = false ->
+  verdict false stable (Some p) (h ++ [(n, 2)]) = verdict true stable (Some p) (h ++ [(n, 2)]).
+Proof. exact as_is_differs_only_when_deferred. Qed.
+Print Assumptions C09_pledge_models_differ_only_when_deferred.
+
+(* without a pledge every way of feeding and ending a frame succeeds *)
+Theorem C09_no_pledge_never_refused : forall fixed stable h n, no_end h -> verdict fixed stable None (h ++ [(n, 2)]) = Some true.
+Proof. exact verdict_no_pledge. Qed.
+Print Assumptions C09_no_pledge_never_refused.
+
+(* input beyond the pledge may be refused as soon as it is seen: once a call reports `over`, no continuation ends the frame well *)
+Theorem C09_early_refusal_is_never_a_false_alarm : forall fixed stable s m d s' h n,
+  call fixed stable s m d = (s', Cok true) -> no_end h -> snd (run fixed stable s' (h ++ [(n, 2)]) []) = Some false.
+Proof. exact early_refusal_sound. Qed.
+Print Assumptions C09_early_refusal_is_never_a_false_alarm.
+
+(* hypotheses satisfiable, and the finding inside the model: pledge 100, stable input, 2500 + 2500 bytes under ZSTD_e_continue, then end *)
+Example C09_pledge_example :
+  no_end [(2500, 0); (2500, 0)] /\
+  verdict false true (Some 100) ([(2500, 0); (2500, 0)] ++ [(0, 2)]) = Some true /\
+  verdict true true (Some 100) ([(2500, 0); (2500, 0)] ++ [(0, 2)]) = Some false /\
+  verdict false false (Some 100) ([(2500, 0); (2500, 0)] ++ [(0, 2)]) = Some false /\
+  (exists s', call false false (fresh (Some 100)) 2500 0 = (s', Cok true)).
+Proof. split; [repeat constructor; discriminate|]. vm_compute. repeat split; eexists; reflexivity. Qed.
